@@ -32,13 +32,26 @@ def in_process(n):
 
 
 def run_plan(n, shards, workers, plan, *, call_timeout=20.0, threshold=90.0, retry_threshold=50, fail_on=(), kill=None,
-             deadline=25.0):
+             deadline=25.0, rejoin_after=None):
   """Runs sharded_pipelines_as_iterator under a fault plan; returns an outcome dict."""
   with dist.cluster(workers, call_timeout=call_timeout, heartbeat_threshold=threshold) as c:
     for (w, i), outcome in plan.items():
       c.plan(w, i, outcome)
     rq = queue.SimpleQueue()
     outs = []
+    if rejoin_after is not None:
+      def rejoin():
+        t0 = time.time()
+        while time.time() - t0 < deadline:
+          with fakecourier.BOARD.lock:
+            dead = [i for i, nm in enumerate(c.names) if nm in fakecourier.BOARD.dead]
+          if dead:
+            time.sleep(rejoin_after)
+            for i in dead:
+              c.restart(i)
+            return
+          time.sleep(0.002)
+      threading.Thread(target=rejoin, daemon=True).start()
 
     def run():
       for x in c.mods.orchestrate.sharded_pipelines_as_iterator(
@@ -458,6 +471,15 @@ def body(chk):
       chk.count('explicit_timeouts_in_death_scenarios')      # see as_completed_plans: loud, timing dependent
       continue
     judge(chk, name, n, out, {(1, i): 'die'})
+  # worker death followed by a rejoin: a new, empty server under the same address
+  for i, delay in ((2, 0.0), (3, 0.05), (2, 0.4)):
+    name = f'die at call {i} of worker 2, rejoin after {delay}s'
+    out = run_plan(n, shards, workers, {(1, i): 'die'}, call_timeout=0.0, threshold=70.0, rejoin_after=delay)
+    chk.replayed()
+    if out['status'] == 'raised' and out['error_type'] == 'TimeoutError':
+      chk.count('explicit_timeouts_in_death_scenarios')
+      continue
+    judge(chk, name.replace('die at', 'rejoin after death at'), n, out, {(1, i): 'die'})
   # retry budget exhausted -> TimeoutError, never a silently shorter result
   plan = {(w, i): 'deadline' for w in (0, 1) for i in range(1, 40)}
   out = run_plan(n, shards, workers, plan, retry_threshold=3)
